@@ -1,3 +1,350 @@
-import Rtcp.Lemmas.Safe6
+/-
+  C13 — decoded TWCC feedback is internally consistent and chunking-invariant.
+  For every byte string the decoder accepts: the receive deltas are exactly the packets marked received by the
+  status chunks, in order (run lengths clipped to the status count, vector chunks contributing all their symbols),
+  each has the size class of its symbol and the value 250 µs × the signed wire value at the position following the
+  chunks, and everything lies inside the declared length. Consequently the deltas are a function of the announced
+  symbol sequence and the delta octets only — not of how the statuses were chunked.
+-/
+import Rtcp.Lemmas.Alloc
 namespace Rtcp.C13
+open Rtcp Gen Out
+set_option linter.unusedSimpArgs false
+set_option linter.unusedVariables false
+
+/-! ### specification, written from the draft: status symbols 0 not received, 1 small delta, 2 large delta, 3 reserved -/
+
+/-- symbols a chunk stands for when `remaining` packets are still to be reported -/
+def chunkSymbols (remaining : Nat) : TwccChunk → List Nat
+  | .rl _ sym run => List.replicate (min remaining run) sym
+  | .sv _ _ syms => syms
+
+/-- is a symbol of this chunk a received packet with a delta (a 1-bit vector only knows "small delta") -/
+def hasDelta (c : TwccChunk) (s : Nat) : Bool :=
+  match c with
+  | .rl _ _ _ => s = 1 || s = 2
+  | .sv _ ss _ => if ss = 0 then s = 1 else if ss = 1 then (s = 1 || s = 2) else false
+
+/-- how many of the remaining packets a chunk reports on -/
+def chunkAdvance (remaining : Nat) : TwccChunk → Nat
+  | .rl _ _ run => min remaining run
+  | .sv _ _ syms => min remaining syms.length
+
+/-- delta types announced by a chunk list, `processed` packets having been reported already -/
+def announced (count : Nat) : Nat → List TwccChunk → List Nat
+  | _, [] => []
+  | processed, c :: cs =>
+    ((chunkSymbols (count - processed) c).filter (hasDelta c)) ++
+      announced count (processed + chunkAdvance (count - processed) c) cs
+
+/-- the deltas as the draft lays them out after the chunks: one octet unsigned for a small delta,
+two octets big-endian two's complement for a large one, in 250 µs ticks -/
+def specDeltas : List Nat → Bytes → Nat → List RecvDelta
+  | [], _, _ => []
+  | t :: ts, b, pos =>
+    if t = 1 then ⟨1, 250 * (get8 b pos : Int)⟩ :: specDeltas ts b (pos + 1)
+    else ⟨2, 250 * int16 (get16 b pos)⟩ :: specDeltas ts b (pos + 2)
+
+def deltasSize (ts : List Nat) : Nat := (ts.map fun t => if t = 1 then 1 else 2).sum
+
+/-! ### the delta loop reads exactly `specDeltas` and stays inside `total` -/
+
+theorem deltaLoop_spec (ds : List RecvDelta) (b : Bytes) (total pos : Nat) (ht : total ≤ b.length) (ht2 : total ≤ 65532) (hp : pos ≤ total)
+    (hty : ∀ d ∈ ds, d.type = 1 ∨ d.type = 2) (ds' : List RecvDelta) (h : twccDeltaLoop ds b total pos = (ds', .ok)) :
+    ds' = specDeltas (ds.map (·.type)) b pos ∧ pos + deltasSize (ds.map (·.type)) ≤ total := by
+  induction ds generalizing pos ds' with
+  | nil =>
+    simp [twccDeltaLoop] at h
+    subst h
+    simp [specDeltas, deltasSize]; exact hp
+  | cons d ds ih =>
+    have hd := hty d (by simp)
+    have hrest : ∀ x ∈ ds, x.type = 1 ∨ x.type = 2 := fun x hx => hty x (by simp [hx])
+    unfold twccDeltaLoop at h
+    rcases hd with h1 | h2
+    · rw [if_pos (by simpa using h1)] at h
+      split at h
+      · simp at h
+      · rename_i hle
+        have hmod : (pos + 1) % 65536 = pos + 1 := by omega
+        rw [hmod] at hle h
+        simp at hle
+        rw [slice_of_le (by omega) (by omega), bind_ok] at h
+        have hsl : ((b.take (pos + 1)).drop pos).length = 1 := by simp; omega
+        have hdec : RecvDelta.dec ((b.take (pos + 1)).drop pos) = .ok ⟨1, 250 * (get8 b pos : Int)⟩ := by
+          unfold RecvDelta.dec
+          rw [if_neg (by omega), if_pos hsl, u8At_of_lt (by omega), bind_ok]
+          have : get8 ((b.take (pos + 1)).drop pos) 0 = get8 b pos := by
+            rw [get8_drop]; simp [get8, List.getD_eq_getElem?_getD, List.getElem?_take]
+          rw [this]; rfl
+        rw [hdec] at h
+        dsimp only at h
+        cases hr : twccDeltaLoop ds b total (pos + 1) with
+        | mk rest st =>
+          rw [hr] at h
+          simp at h
+          obtain ⟨hh1, hh2⟩ := h
+          subst hh2
+          have := ih (pos + 1) (by omega) hrest rest hr
+          simp only [List.map_cons, specDeltas, h1, if_true, deltasSize, List.sum_cons]
+          rw [← hh1, this.1]
+          refine ⟨rfl, ?_⟩
+          have h2 := this.2
+          simp only [deltasSize] at h2
+          omega
+    · have hne : ¬ d.type = TypeTCCPacketReceivedSmallDelta := by simp; omega
+      rw [if_neg hne, if_pos (by simpa using h2)] at h
+      split at h
+      · simp at h
+      · rename_i hle
+        have hmod : (pos + 2) % 65536 = pos + 2 := by omega
+        rw [hmod] at hle h
+        simp at hle
+        rw [slice_of_le (by omega) (by omega), bind_ok] at h
+        have hsl : ((b.take (pos + 2)).drop pos).length = 2 := by simp; omega
+        have hdec : RecvDelta.dec ((b.take (pos + 2)).drop pos) = .ok ⟨2, 250 * int16 (get16 b pos)⟩ := by
+          unfold RecvDelta.dec
+          rw [if_neg (by omega), if_neg (by omega), u16At_of_le (by omega), bind_ok]
+          have : get16 ((b.take (pos + 2)).drop pos) 0 = get16 b pos := by
+            simp only [get16, get8_drop]
+            simp [get8, List.getD_eq_getElem?_getD, List.getElem?_take]
+          rw [this]; rfl
+        rw [hdec] at h
+        dsimp only at h
+        cases hr : twccDeltaLoop ds b total (pos + 2) with
+        | mk rest st =>
+          rw [hr] at h
+          simp at h
+          obtain ⟨hh1, hh2⟩ := h
+          subst hh2
+          have := ih (pos + 2) (by omega) hrest rest hr
+          have hne1 : ¬ d.type = 1 := by omega
+          simp only [List.map_cons, specDeltas, hne1, if_false, deltasSize, List.sum_cons]
+          rw [← hh1, this.1]
+          refine ⟨rfl, ?_⟩
+          · have h3 := this.2
+            simp only [deltasSize] at h3
+            omega
+
+/-! ### the chunk loop announces exactly `announced` -/
+
+theorem chunkDeltas_spec (count processed : Nat) (c : TwccChunk) (hc : count ≤ 65535) (hp : processed ≤ count)
+    (hsv : ∀ t ss syms, c = .sv t ss syms → syms.length ≤ 14) :
+    ((chunkDeltas count processed c).1.map (·.type)) = (chunkSymbols (count - processed) c).filter (hasDelta c) ∧
+    (chunkDeltas count processed c).2 = processed + chunkAdvance (count - processed) c ∧
+    (∀ d ∈ (chunkDeltas count processed c).1, d.type = 1 ∨ d.type = 2) := by
+  have h1 : (count + 65536 - processed) % 65536 = count - processed := by omega
+  cases c with
+  | rl t sym run =>
+    simp only [chunkDeltas, chunkSymbols, chunkAdvance, localMin, h1]
+    have hmin : (if count - processed < run then count - processed else run) = min (count - processed) run := by
+      simp only [Nat.min_def]; split <;> split <;> omega
+    rw [hmin]
+    have hmod : (processed + min (count - processed) run) % 65536 = processed + min (count - processed) run := by
+      have : min (count - processed) run ≤ count - processed := Nat.min_le_left _ _
+      omega
+    refine ⟨?_, hmod, ?_⟩
+    · by_cases hs : sym = 1 ∨ sym = 2
+      · have hd : hasDelta (.rl t sym run) sym = true := by simp [hasDelta]; exact hs
+        simp only [TypeTCCPacketReceivedSmallDelta, TypeTCCPacketReceivedLargeDelta]
+        rw [if_pos hs, List.filter_replicate_of_pos hd, List.map_replicate]
+      · have hd : ¬ hasDelta (.rl t sym run) sym = true := by simp [hasDelta]; omega
+        simp only [TypeTCCPacketReceivedSmallDelta, TypeTCCPacketReceivedLargeDelta]
+        rw [if_neg hs, List.filter_replicate_of_neg hd]; rfl
+    · intro d hd
+      simp only [TypeTCCPacketReceivedSmallDelta, TypeTCCPacketReceivedLargeDelta] at hd
+      split at hd
+      · rename_i hs
+        have := List.eq_of_mem_replicate hd
+        rw [this]; exact hs
+      · simp at hd
+  | sv t ss syms =>
+    have hl := hsv t ss syms rfl
+    have h2 : syms.length % 65536 = syms.length := by omega
+    simp only [chunkDeltas, chunkSymbols, chunkAdvance, localMin, h1, h2]
+    have hmin : (if count - processed < syms.length then count - processed else syms.length) = min (count - processed) syms.length := by
+      simp only [Nat.min_def]; split <;> split <;> omega
+    rw [hmin]
+    have hmod : (processed + min (count - processed) syms.length) % 65536 = processed + min (count - processed) syms.length := by
+      have : min (count - processed) syms.length ≤ count - processed := Nat.min_le_left _ _
+      omega
+    refine ⟨?_, hmod, ?_⟩
+    · by_cases h0 : ss = 0
+      · subst h0
+        have hf : hasDelta (.sv t 0 syms) = fun s => decide (s = 1) := by funext s; simp [hasDelta]
+        simp [hf, List.map_map, Function.comp_def]
+      · by_cases h1' : ss = 1
+        · subst h1'
+          have hf : hasDelta (.sv t 1 syms) = fun s => (decide (s = 1) || decide (s = 2)) := by funext s; simp [hasDelta]
+          simp [hf, List.map_map, Function.comp_def]
+        · have hf : hasDelta (.sv t ss syms) = fun _ => false := by funext s; simp [hasDelta, h0, h1']
+          simp [h0, h1', hf]
+    · intro d hd
+      by_cases h0 : ss = 0
+      · simp [h0] at hd; obtain ⟨a, ha, hd⟩ := hd; rw [← hd]; left; exact ha.2
+      · by_cases h1' : ss = 1
+        · simp [h1'] at hd; obtain ⟨a, ha, hd⟩ := hd; rw [← hd]; exact ha.2
+        · simp [h0, h1'] at hd
+
+theorem chunkLoop_spec (gas : Nat) (b : Bytes) (total count pos processed : Nat)
+    (hc : count ≤ 65535) (hp : processed ≤ count) (hpos : pos ≤ total) (ht : total ≤ 65532)
+    (cs : List TwccChunk) (ds : List RecvDelta) (pos' : Nat)
+    (h : twccChunkLoop gas b total count pos processed = (cs, ds, pos', .ok)) :
+    ds.map (·.type) = announced count processed cs ∧ pos' = pos + 2 * cs.length ∧ pos' ≤ total ∧
+    (∀ d ∈ ds, d.type = 1 ∨ d.type = 2) := by
+  induction gas generalizing pos processed cs ds pos' with
+  | zero => simp [twccChunkLoop] at h
+  | succ g ih =>
+    unfold twccChunkLoop at h
+    split at h
+    · split at h
+      · simp at h
+      · rename_i h1 h2
+        have hmod : (pos + packetStatusChunkLength) % 65536 = pos + 2 := by unfold_consts; omega
+        rw [hmod] at h2 h
+        split at h
+        · rename_i b0 cb hb0 hcb
+          dsimp only at h
+          generalize hr : (if getNBitsFromByte b0 0 1 = TypeTCCRunLengthChunk then rlChunkDec cb else svChunkDec cb) = r at h
+          cases r with
+          | err => simp [Out.status] at h
+          | panic => simp [Out.status] at h
+          | diverge => simp [Out.status] at h
+          | ok c =>
+            dsimp only at h
+            have hsv : ∀ t ss syms, c = .sv t ss syms → syms.length ≤ 14 := by
+              split at hr
+              · exact rlChunkDec_not_sv hr
+              · exact svChunkDec_len hr
+            have hcd := chunkDeltas_spec count processed c hc hp hsv
+            have hb := chunkDeltas_bound count processed c hc hp hsv
+            cases hrec : twccChunkLoop g b total count (pos + 2) (chunkDeltas count processed c).2 with
+            | mk cs1 r1 =>
+              obtain ⟨ds1, pos1, st1⟩ := r1
+              rw [hrec] at h
+              simp at h
+              obtain ⟨hcs, hds, hps, hst⟩ := h
+              subst hst
+              have := ih (pos + 2) (chunkDeltas count processed c).2 hb.1 (by omega) cs1 ds1 pos1 hrec
+              rw [← hcs, ← hds, ← hps]
+              refine ⟨?_, ?_, this.2.2.1, ?_⟩
+              · rw [List.map_append, hcd.1, this.1, hcd.2.1]; rfl
+              · rw [this.2.1]; simp; omega
+              · intro d hd
+                rcases List.mem_append.mp hd with h3 | h3
+                · exact hcd.2.2 d h3
+                · exact this.2.2.2 d h3
+        · simp at h
+    · simp at h
+      obtain ⟨h1, h2, h3⟩ := h
+      subst h1; subst h2; subst h3
+      exact ⟨rfl, by simp, hpos, by simp⟩
+
+
+/-- **consistency of every accepted TWCC packet** -/
+theorem accepted_consistent (b : Bytes) (t : Twcc) (h : Twcc.dec b = .ok t) :
+    let total := 4 * ((t.header.length + 1) % 65536) % 65536
+    -- the deltas are the received packets announced by the chunks, in order …
+    t.deltas.map (·.type) = announced t.statusCount 0 t.chunks ∧
+    -- … with the wire values that follow the chunks, scaled by 250 µs …
+    t.deltas = specDeltas (announced t.statusCount 0 t.chunks) b (20 + 2 * t.chunks.length) ∧
+    -- … and chunks and deltas lie inside the declared length, which lies inside the buffer
+    20 + 2 * t.chunks.length + deltasSize (announced t.statusCount 0 t.chunks) ≤ total ∧ total ≤ b.length := by
+  have hst := Status.toOut_eq_ok h
+  obtain ⟨hs, hv⟩ := hst
+  unfold Twcc.decP at hs hv
+  by_cases hlen : b.length < headerLength + ssrcLength
+  · rw [if_pos hlen] at hs; simp at hs
+  · rw [if_neg hlen] at hs hv
+    cases hh : Header.dec b with
+    | ok hd =>
+      simp only [hh] at hs hv
+      split at hs
+      · simp at hs
+      · split at hs
+        · simp at hs
+        · split at hs
+          · simp at hs
+          · rename_i h1 h2 h3
+            rw [if_neg h1, if_neg h2, if_neg h3] at hv
+            rw [u32At_of_le (by lomega), u32At_of_le (by lomega), u16At_of_le (by lomega), u16At_of_le (by lomega),
+              u24At_of_le (by lomega), u8At_of_lt (by lomega)] at hs hv
+            dsimp only at hs hv
+            have hcount := get16_lt b (headerLength + packetStatusCountOffset)
+            cases hloop : twccChunkLoop (b.length + 1) b (4 * ((hd.length + 1) % 65536) % 65536) (get16 b (headerLength + packetStatusCountOffset))
+                (headerLength + packetChunkOffset) 0 with
+            | mk cs r =>
+              obtain ⟨ds, pos, st⟩ := r
+              rw [hloop] at hs hv
+              dsimp only at hs hv
+              cases st with
+              | ok =>
+                dsimp only at hs hv
+                have hc := chunkLoop_spec (b.length + 1) b _ _ _ 0 (by omega) (by omega) (by lomega) (by lomega) cs ds pos hloop
+                cases hdl : twccDeltaLoop ds b (4 * ((hd.length + 1) % 65536) % 65536) pos with
+                | mk ds' st' =>
+                  rw [hdl] at hs hv
+                  dsimp only at hs hv
+                  subst hs
+                  have hd' := deltaLoop_spec ds b _ pos (by lomega) (by lomega) hc.2.2.1 hc.2.2.2 ds' hdl
+                  rw [← hv]
+                  dsimp only
+                  have hpos : pos = 20 + 2 * cs.length := by rw [hc.2.1]; rfl
+                  refine ⟨?_, ?_, ?_, by lomega⟩
+                  · rw [hd'.1, ← hc.1]
+                    -- types of specDeltas are the announced types
+                    have : ∀ (ts : List Nat) (p : Nat), (∀ x ∈ ts, x = 1 ∨ x = 2) → (specDeltas ts b p).map (·.type) = ts := by
+                      intro ts
+                      induction ts with
+                      | nil => intro p _; rfl
+                      | cons x xs ihx =>
+                        intro p hx
+                        have hx1 := hx x (by simp)
+                        simp only [specDeltas]
+                        split
+                        · rename_i he; simp [he, ihx _ (fun y hy => hx y (by simp [hy]))]
+                        · rename_i he; simp [ihx _ (fun y hy => hx y (by simp [hy]))]; omega
+                    apply this
+                    intro x hx
+                    obtain ⟨d, hd1, hd2⟩ := List.mem_map.mp hx
+                    rw [← hd2]; exact hc.2.2.2 d hd1
+                  · rw [hd'.1, hc.1, hpos]
+                  · rw [← hc.1, ← hpos]; exact hd'.2
+              | err => simp at hs
+              | panic => simp at hs
+              | diverge => simp at hs
+    | err => simp [hh, Out.status] at hs
+    | panic => simp [hh, Out.status] at hs
+    | diverge => simp [hh, Out.status] at hs
+
+/-- **chunking invariance**: two accepted packets that announce the same delta types and carry the same octets after
+their chunks decode to the same deltas — however the statuses were split into run-length and vector chunks -/
+theorem chunking_invariant (b1 b2 : Bytes) (t1 t2 : Twcc) (h1 : Twcc.dec b1 = .ok t1) (h2 : Twcc.dec b2 = .ok t2)
+    (hann : announced t1.statusCount 0 t1.chunks = announced t2.statusCount 0 t2.chunks)
+    (hbytes : ∀ i, get8 b1 (20 + 2 * t1.chunks.length + i) = get8 b2 (20 + 2 * t2.chunks.length + i)) :
+    t1.deltas = t2.deltas := by
+  have a1 := (accepted_consistent b1 t1 h1).2.1
+  have a2 := (accepted_consistent b2 t2 h2).2.1
+  rw [a1, a2, hann]
+  generalize announced t2.statusCount 0 t2.chunks = ts
+  have key : ∀ (ts : List Nat) (p1 p2 : Nat), (∀ i, get8 b1 (p1 + i) = get8 b2 (p2 + i)) → specDeltas ts b1 p1 = specDeltas ts b2 p2 := by
+    intro ts
+    induction ts with
+    | nil => intro _ _ _; rfl
+    | cons x xs ih =>
+      intro p1 p2 hb
+      simp only [specDeltas]
+      have h0 := hb 0
+      have h1' := hb 1
+      simp only [Nat.add_zero] at h0
+      split
+      · rw [h0, ih (p1 + 1) (p2 + 1) (fun i => by have := hb (1 + i); simpa [Nat.add_assoc] using this)]
+      · simp only [get16]
+        rw [h0, h1', ih (p1 + 2) (p2 + 2) (fun i => by have := hb (2 + i); simpa [Nat.add_assoc] using this)]
+  exact key ts _ _ hbytes
+
+/-- non-vacuity: example packet of the test-suite (count 2, one run-length chunk of small deltas) -/
+example : ∃ t, Twcc.dec [0x8f, 0xcd, 0, 5, 0, 0, 0, 1, 0, 0, 0, 2, 0, 3, 0, 2, 0, 4, 5, 6, 0x20, 2, 1, 2, 0, 0] = .ok t ∧
+    t.deltas = [⟨1, 250⟩, ⟨1, 500⟩] := ⟨_, rfl, by decide⟩
+
 end Rtcp.C13
